@@ -59,11 +59,14 @@ def bfs(spec_mod, roots, depth_of_root, acc, budget_s=None, probe=True, sig=lamb
     t0 = time.time()
     pool = make_pool(NPROC) if NPROC > 1 else None
     seen = {}
+    budget = {}          # digest -> largest remaining depth this state was ever given
     levels = []
     frontier = []
     try:
-        # root states
-        for i, h in enumerate(roots):
+        # root states (deepest budget first: a state keeps the largest remaining depth it is reached with)
+        order = sorted(range(len(roots)), key=lambda i: -depth_of_root(i))
+        for i in order:
+            h = roots[i]
             dig, probs, info = spec_mod.step(list(h))
             acc.transitions += len(h)
             if probs:
@@ -71,6 +74,7 @@ def bfs(spec_mod, roots, depth_of_root, acc, budget_s=None, probe=True, sig=lamb
                 continue
             if dig not in seen:
                 seen[dig] = list(h)
+                budget[dig] = depth_of_root(i)
                 frontier.append((list(h), depth_of_root(i)))
         new_states = [h for (h, _d) in frontier]
         depth = 0
@@ -91,7 +95,15 @@ def bfs(spec_mod, roots, depth_of_root, acc, budget_s=None, probe=True, sig=lamb
                 acc.capped = True
                 break
             depth += 1
-            rem = {tuple(map(repr, h)): d for (h, d) in todo}
+            rem = {}
+            for (h, d) in todo:
+                k = tuple(map(repr, h))
+                rem[k] = max(d, rem.get(k, 0))
+            todo = [(h, d) for (h, d) in todo if rem.get(tuple(map(repr, h))) == d]
+            uniq = {}
+            for (h, d) in todo:
+                uniq[tuple(map(repr, h))] = (h, d)
+            todo = list(uniq.values())
             frontier = []
             new_states = []
             work = [(modname, h, spec_mod.alphabet(h)) for (h, _d) in todo]
@@ -103,8 +115,13 @@ def bfs(spec_mod, roots, depth_of_root, acc, budget_s=None, probe=True, sig=lamb
                         acc.violation(sig(probs), {'history': hist + [s], 'cfg': spec_mod.cfg_of(hist)}, None, probs[:4])
                         continue          # a dead / spinning stack has no meaningful successors
                     if dig in seen:
+                        if d - 1 > budget.get(dig, 0):
+                            # reached again with more depth left than it was expanded with: expand it further
+                            budget[dig] = d - 1
+                            frontier.append((seen[dig], d - 1))
                         continue
                     seen[dig] = hist + [s]
+                    budget[dig] = d - 1
                     frontier.append((hist + [s], d - 1))
                     new_states.append(hist + [s])
             # deterministic order whatever the worker scheduling was
